@@ -17,6 +17,11 @@ without white space) or a block:
                                         wrap  = 0: none, 1: last column declared wrappable
                                         (':w'), or a tuple of wrappable column indexes
                                                                        -> #TABLE { a | b } TABLE#
+    ('L', items, bullet, flag)          a block may carry the wrap flag 'nowrap' / 'wrapalign' (None: no flag)
+    ('T', wrap, rows, flag[, udg])      -> #LIST<nowrap> .., #TABLE(,,:w)<wrapalign> ..; udg true: #UDGTABLE .. UDGTABLE#
+                                        (the flag "determines how sna2skool.py will write list items / table rows when
+                                        reading from a control file": nowrap = each on a single line, wrapalign = wrapped
+                                        with an indent, default = wrapped with no indent; UDGTABLE: control files only)
 """
 from html.parser import HTMLParser
 
@@ -82,23 +87,44 @@ def render_token(tok):
     """Source (skool/ctl) form of one token."""
     if isinstance(tok, str):
         return [tok]
+    flag = '<{}>'.format(block_flag(tok)) if block_flag(tok) else ''
     if tok[0] == 'L':
-        out = ['#LIST' if list_bullet_param(tok) is None else '#LIST(,{})'.format(tok[2])]
+        out = [('#LIST' if list_bullet_param(tok) is None else '#LIST(,{})'.format(tok[2])) + flag]
+    else:
+        wrap = tok[1]
+        ncols = table_cells(tok)[1]
+        wcols = wrap_columns(wrap, ncols)
+        name = '#UDGTABLE' if table_is_udg(tok) else '#TABLE'
+        out = [name + ('(' + ','.join([''] + [':w' if j in wcols else '' for j in range(ncols)]) + ')' if wcols else '') + flag]
+    for row in block_rows(tok):
+        out += row
+    return out + ['LIST#' if tok[0] == 'L' else 'UDGTABLE#' if table_is_udg(tok) else 'TABLE#']
+
+
+def block_flag(tok):
+    """The wrap flag of a block token (None, 'nowrap' or 'wrapalign')."""
+    return tok[3] if len(tok) > 3 else None
+
+
+def table_is_udg(tok):
+    return tok[0] == 'T' and len(tok) > 4 and bool(tok[4])
+
+
+def block_rows(tok):
+    """Source words of every list item / table row of a block token, braces included."""
+    out = []
+    if tok[0] == 'L':
         for item in tok[1]:
-            out += ['{'] + list(item) + ['}']
-        return out + ['LIST#']
-    _, wrap, rows = tok
-    ncols = table_cells(tok)[1]
-    wcols = wrap_columns(wrap, ncols)
-    out = ['#TABLE(' + ','.join([''] + [':w' if j in wcols else '' for j in range(ncols)]) + ')' if wcols else '#TABLE']
-    for row in rows:
-        out.append('{')
-        for j, cell in enumerate(row):
-            if j:
-                out.append('|')
-            out += list(cell)
-        out.append('}')
-    return out + ['TABLE#']
+            out.append(['{'] + list(item) + ['}'])
+    else:
+        for row in tok[2]:
+            words = ['{']
+            for j, cell in enumerate(row):
+                if j:
+                    words.append('|')
+                words += list(cell)
+            out.append(words + ['}'])
+    return out
 
 
 def source_words(tokens):
@@ -111,6 +137,16 @@ def source_words(tokens):
 def list_bullet_param(tok):
     """The bullet parameter of a list token (None: not given)."""
     return tok[2] if len(tok) > 2 else None
+
+
+def nowrap_rows(tokens):
+    """The texts of the items / rows of the <nowrap> blocks of an annotation (each is written by sna2skool on a
+    single line, whatever its length)."""
+    out = set()
+    for t in tokens:
+        if not isinstance(t, str) and block_flag(t) == 'nowrap':
+            out.update(' '.join(r) for r in block_rows(t))
+    return out
 
 
 def list_bullet(tok, prop=BULLET):
